@@ -156,8 +156,13 @@ def c19(ctx):
     ctx.require_tags(summ["tags"], ["ep:w", "ep:b", "O-O:w", "O-O:b", "O-O-O:w", "O-O-O:b"] + ["promo%s%s:%s" % (x, k, c) for x in ("", "x") for k in "QRBN" for c in "wb"])
     b2_games(ctx, ["uci"], 30 if quick else 500, 150, 1000 if quick else 20000, shards=4 if quick else 8)
     ctx.sample({"binding": "B1", "special_moves": {t: summ["tags"].get(t, 0) for t in ["ep:w", "ep:b", "O-O:w", "O-O-O:b", "promoxN:b"]}})
+    # whole games through the real bridge against a stand-in for the external engine
+    import frontends
+    frontends.bridge_check(ctx, 40 if quick else 400)
     ctx.rule = ("B1: to_uci of every legal move of every oracle state against UCI(m), distinctness, and the bridge parser (hook H3) applied to the rendered text: same variant, fields and effect on the board; "
-                "B2: the same along random games / set-ups, validated by TLC. distinct_nontrivial = non-standard moves (castle, en passant, promotion)")
+                "B2: the same along random games / set-ups, validated by TLC; and `chess determine-stockfish-elo` run against a stand-in external engine on PATH: every coordinate string the engine "
+                "sends in `position startpos moves ..` and every `bestmove` reply it reads back is a Bridge event of Trace_Engine (the string names the legal move played, the printed board is its successor). "
+                "distinct_nontrivial = non-standard moves (castle, en passant, promotion)")
 
 
 PROPS = {"C01": c01, "C03": c03, "C06": c06, "C13": c13, "C19": c19}
